@@ -317,7 +317,7 @@ pub fn fault(a: &Args, rep: &mut Report) {
     'cases: for h in 0..sh.n {
         let mut hr = rng.fork();
         let size = if miri { *hr.pick(&[3usize, 9, 17]) } else { *hr.pick(&[1usize, 3, 7, 14, 20, 29, 30, 45, 60, 100, 130, 250]) };
-        let state = hr.below(6);
+        let state = hr.below(7);
         let mode = if size <= 30 { *hr.pick(&[HMode::Good, HMode::SameTag, HMode::Const, HMode::Identity, HMode::LowEntropy]) } else { *hr.pick(&[HMode::Good, HMode::SameTag, HMode::Identity]) };
         let cfg = Cfg { elem: ElemKind::TrHeap, bh: Bh::new(mode, hr.below(3)), cap: usize::MAX, check_every: 1, cursor_every: 1, focus: "C07" };
         // build the state once to learn the prefix
